@@ -11,6 +11,7 @@ import VsgProofs.Lemmas.BaseWsFull
 import VsgProofs.Lemmas.BaseWsEffects
 import VsgProofs.Lemmas.BaseCaseTok
 import VsgProofs.Lemmas.BaseCaseAscii
+import VsgProofs.Lemmas.BFull2Indent   -- wp2_bfull2
 namespace Vsgm.C10
 open Vsgm
 
@@ -209,5 +210,68 @@ example (fm : String → Str → Bool) : CharWiseIdem (asciiEnv fm) asciiLowerS 
 end caseFamily
 
 /-! ### END ag_bcase -/
+
+/-! ### BEGIN wp2_bfull2 (indent family: the WHOLE rule — extractor + analysis + fix — inside the model) -/
+
+section wp2_bfull2
+open BFull2
+
+/-- what `Rule.fix` computes for a fixable rule without `--fix_only` is `fixAll` -/
+theorem bfull2_ruleFix_eq (r : RuleCfg) (uid : Tok → Option TM.Key) (P : Params) (ind : Oracle) (f : List Tok)
+    (hf : r.fixable = true) : (ruleFix r (sem uid P ind) none f).1 = fixAll uid P ind f := by
+  simp [ruleFix, hf, filterFixOnly, fixAll]
+
+/-- **whole-rule idempotence of `token_indent` (93 rules)**: for EVERY token list without pseudo tokens, every
+    assignment of indent levels to the tokens (`none` = Python `None`, negative levels included), every
+    `indent_size`, both documented `indent_style`s and every `lTokens` admitted by `CsOk` (all 93 rules:
+    `C18.bfull2_indentRule_csOk`), the rule's analysis of the file its own fix produced is EMPTY.  No contract
+    hypothesis: extractor, `_analyze`, `_fix_violation`, position sort and `vhdlFile.update` are all the model's. -/
+theorem bfull2_indent_idem (r : RuleCfg) (uid : Tok → Option TM.Key) (P : Params) (ind : Oracle) (f : List Tok)
+    (hf : r.fixable = true) (hv : P.variant = .plain) (hcs : CsOk P.cs) (hs : StyleOk P) (hu : UidOk uid P)
+    (hb : ∀ t ∈ f, t.isBof = false) :
+    (sem uid P ind).analyze (ruleFix r (sem uid P ind) none f).1 = [] := by
+  rw [bfull2_ruleFix_eq r uid P ind f hf]
+  exact analyze_fixAll uid P ind hv hcs hs hu f hb
+
+/-- … hence the second `Rule.fix` is the identity and does not set `had_violations` (engine theorem
+    `second_fix_identity` with its hypothesis discharged) -/
+theorem bfull2_indent_second_fix (r : RuleCfg) (uid : Tok → Option TM.Key) (P : Params) (ind : Oracle) (f : List Tok)
+    (hf : r.fixable = true) (hv : P.variant = .plain) (hcs : CsOk P.cs) (hs : StyleOk P) (hu : UidOk uid P)
+    (hb : ∀ t ∈ f, t.isBof = false) :
+    ruleFix r (sem uid P ind) none (ruleFix r (sem uid P ind) none f).1 = ((ruleFix r (sem uid P ind) none f).1, false) := by
+  apply second_fix_identity
+  simp only [filterFixOnly]
+  exact bfull2_indent_idem r uid P ind f hf hv hcs hs hu hb
+
+/-- region level, every style string: after `remove_whitespace` / `adjust_whitespace` / `add_whitespace` the
+    re-extracted region is judged clean — `[token]` at level 0, `[indent, token]` otherwise (the style guard is
+    needed for `adjust`: under any other style string `_fix_violation` does nothing and the violation stays) -/
+theorem bfull2_indent_region_idem (P : Params) (hs : StyleOk P) (w x : Tok) (lvl : Int) :
+    judge P.style P.size (fun _ => some 0) [x] = none ∧
+    (lvl ≠ 0 → judge P.style P.size (fun _ => some lvl) [{ w with val := wsVal P lvl }, x] = none) := by
+  constructor
+  · unfold judge; simp
+  · intro hl
+    unfold judge
+    have h0 : (lvl == 0) = false := by simpa using hl
+    simp [h0, wsVal_expected]
+
+/-- non-vacuity: `a⏎ signal` with level 1 for `signal` — one violation (`adjust_whitespace`), repaired to two blanks,
+    and nothing left -/
+example :
+    let f : List Tok := [⟨9, .code, "a".toList⟩, ⟨1, .cr, []⟩, ⟨2, .ws, " ".toList⟩, ⟨3, .code, "signal".toList⟩]
+    let ind : Oracle := fun _ => some 1
+    ((sem toyUid toyP ind).analyze f).length = 1 ∧
+    fixAll toyUid toyP ind f = [⟨9, .code, "a".toList⟩, ⟨1, .cr, []⟩, ⟨2, .ws, "  ".toList⟩, ⟨3, .code, "signal".toList⟩] ∧
+    (sem toyUid toyP ind).analyze (fixAll toyUid toyP ind f) = [] := by
+  decide +kernel
+
+example : StyleOk toyP := Or.inl rfl
+example : UidOk toyUid toyP := ⟨fun t t' h => by unfold toyUid; rw [h], fun t h => by unfold toyUid toyP at *; simp at h; simp [h]⟩
+
+end wp2_bfull2
+
+/-! ### END wp2_bfull2 -/
+
 
 end Vsgm.C10
